@@ -108,6 +108,15 @@ func alternatives(v ssa.Value, atom func(ssa.Value) string, depth int) []linform
 		}
 	case *ssa.Convert:
 		return alternatives(x.X, atom, depth)
+	case *ssa.Call:
+		// min(a, b) / max(a, b) is one of its operands
+		if n := callee(x); depth < 3 && (n == "builtin:min" || n == "builtin:max") {
+			var out []linform
+			for _, a := range x.Call.Args {
+				out = append(out, alternatives(a, atom, depth+1)...)
+			}
+			return out
+		}
 	}
 	return []linform{atomForm(v, atom)}
 }
